@@ -2,6 +2,7 @@ import BctVerif.Lemmas.Comp
 import BctVerif.Props.C03
 import Mathlib.Data.List.Chain
 import Mathlib.Order.Interval.Finset.Nat
+import Mathlib.Algebra.BigOperators.Fin
 
 /-!
 # C16 — connected components are exactly the classes of mutually reachable nodes
@@ -81,6 +82,25 @@ theorem labels_onto (A : AMat Int n) (l : ℕ) (h1 : 1 ≤ l) (h2 : l ≤ (sizes
   obtain ⟨x, hx⟩ := Finset.card_pos.mp hpos
   rw [Finset.mem_filter] at hx
   exact ⟨x, by omega⟩
+
+/-- the reported sizes add up to the number of nodes: every node is counted in exactly one component
+(corollary of `labels_range` and `sizes_correct`) -/
+theorem sizes_sum (A : AMat Int n) : (sizesOf A).sum = n := by
+  have hr := labels_range A
+  let f : Fin n → Fin (sizesOf A).length := fun x => ⟨labelFn A x - 1, by have := hr x; omega⟩
+  have h1 : (univ : Finset (Fin n)).card
+      = ∑ b ∈ (univ : Finset (Fin (sizesOf A).length)), (univ.filter fun a => f a = b).card :=
+    Finset.card_eq_sum_card_fiberwise (fun x _ => mem_univ _)
+  rw [Finset.card_univ, Fintype.card_fin] at h1
+  rw [← Fin.sum_univ_getElem]
+  refine Eq.trans ?_ h1.symm
+  refine Finset.sum_congr rfl fun b _ => ?_
+  rw [(sizes_correct A b.val b.isLt).1]
+  congr 1
+  ext x
+  simp only [mem_filter, mem_univ, true_and, f, Fin.ext_iff]
+  have := hr x
+  omega
 
 /-- `number_of_components` is the number of distinct labels -/
 theorem number_of_components_correct (A : AMat Int n) (hsym : isSymm A = true) :
@@ -243,6 +263,7 @@ def exAsym : AMat Int 2 := AMat.ofFn fun i j => if i.val = 0 ∧ j.val = 1 then 
 example : isSymm exA = true ∧ labels (unionSets exA) = [2, 1, 1, 2, 3] ∧ sizesOf exA = [2, 2, 1] := by decide
 example : isSymm exB = true ∧ labels (unionSets exB) = [2, 2, 1, 2, 2] ∧ sizesOf exB = [1, 4] := by decide
 example : isSymm exAsym = false := by decide
+example : (sizesOf exA).sum = 5 ∧ (sizesOf exB).sum = 5 := by decide
 example : (List.finRange 5).map (labelFn exA) = [2, 1, 1, 2, 3] := by decide
 example : ∀ w : Fin 5, w ≠ 4 → exA.get 4 w = 0 := by decide
 /-- the hypotheses of the three distance corollaries are satisfiable (symmetric, empty diagonal) -/
